@@ -140,6 +140,27 @@ func runC20(c *core.Ctx) error {
 	if len(genCalls) == 0 {
 		r2.Undecided("anchor:generate-call", c.Pos(runFn.Pos()), "run() does not call generate()")
 	}
+	// the package name is printed into every generated file: it reaches generate() only past a
+	// token.IsIdentifier test (an invalid name otherwise fails in goimports, after --clean)
+	for _, gc := range genCalls {
+		okName := false
+		for _, call := range core.Calls(runFn) {
+			cv, isCall := call.(*ssa.Call)
+			if !isCall || !core.IsCallTo(call.Common(), "go/token", "IsIdentifier") {
+				continue
+			}
+			for _, eb := range core.EdgeBlocks(cv, true) {
+				if eb == gc.Block() || eb.Dominates(gc.Block()) {
+					okName = true
+				}
+			}
+		}
+		if okName {
+			r2.Pass("run: generate() dominated by token.IsIdentifier(package name)")
+		} else {
+			r2.Fail("run:generate-before:package-name", c.Pos(gc.Pos()), "generate() is reachable with a --package value that was never checked to be an identifier: the error surfaces in goimports during WriteSource, after --clean has emptied the target directory")
+		}
+	}
 	for _, gc := range genCalls {
 		for _, g := range runGates {
 			name := core.CalleeName(g.(*ssa.Call).Common())
